@@ -8,6 +8,7 @@ import Rtcm.Model.Names
 import Rtcm.Model.Layout
 import Rtcm.Model.Repr
 import Rtcm.Model.Machine
+import Rtcm.Model.Helpers
 import Rtcm.Gen.Tables
 /-
   Line-protocol driver over the executable model (no Lemmas / Props / Mathlib imported).
@@ -178,6 +179,26 @@ def step (line : String) : String :=
         | none => "lay-nodef"
       | _ => "lay-noid"
     | _, _, _ => "bad-op"
+  | ["getbit", h, n] =>
+    -- rtcmhelpers.get_bit
+    match hexToBytes (if h = "-" then "" else h), n.toNat? with
+    | some bs, some k => (match getBit bs k with | some v => s!"gb {v}" | none => "foreign:index")
+    | _, _ => "bad-op"
+  | ["escall", h] =>
+    -- rtcmhelpers.escapeall (output as hex of the ASCII string)
+    match hexToBytes (if h = "-" then "" else h) with
+    | some bs => "es " ++ bytesToHex ((escapeall bs).map UInt8.ofNat)
+    | none => "bad-op"
+  | ["tow", t] =>
+    -- rtcmhelpers.tow2utc
+    match t.toInt? with
+    | some tow => let r := tow2utc tow; s!"tod {r.h} {r.m} {r.s} {r.us}"
+    | none => "bad-op"
+  | ["hextbl", h, c] =>
+    -- rtcmhelpers.hextable, cols >= 1 (output as hex of the ASCII string)
+    match hexToBytes (if h = "-" then "" else h), c.toNat? with
+    | some bs, some cols => if cols = 0 then "bad-op" else "ht " ++ bytesToHex ((hextable bs cols).map UInt8.ofNat)
+    | _, _ => "bad-op"
   | ["brepr", h] =>
     -- repr(bytes)
     match hexToBytes (if h = "-" then "" else h) with
